@@ -45,7 +45,7 @@ def run(ctx: Ctx) -> None:
         "reference: dense Liouvillian propagator scipy.linalg.expm(dt*L_k) per step, L_k from the rows the stepper received and the emulator's jump-operator list (whether that list is what Pulser defines is C24's subject); stands in for Pulser's master-equation solver, which is not installed",
         "budget: 10*tol per step + rounding on the Frobenius norm of rho; physicality with the same slack",
     ]
-    n = ctx.pick(60, 600)
+    n = ctx.pick(60, 240)
     jobs = make_jobs(ctx, n, lind=True)
     for i, j in enumerate(jobs):
         j["noise"] = noise_specs(ctx.rng, i)
